@@ -18,20 +18,32 @@ for mid in ids:
         print(mid, "PATCH DOES NOT APPLY", flush=True)
         continue
     try:
-        r = subprocess.run([V + "/check", prop, "--tier", "quick"], stdout=subprocess.PIPE, stderr=subprocess.STDOUT, cwd=V)
-        out = r.stdout.decode(errors="replace")
+        extra = json.load(open(os.path.join(V, "seeded", mid, "meta.json"))).get("also_run", [])
+    except Exception:
+        extra = []
+    by = []
+    sigs = []
+    nv = 0
+    try:
+        for chk in [prop] + list(extra):
+            r = subprocess.run([V + "/check", chk, "--tier", "quick"], stdout=subprocess.PIPE, stderr=subprocess.STDOUT, cwd=V)
+            out = r.stdout.decode(errors="replace")
+            s_ = [ln.split("signature:")[1].strip() for ln in out.splitlines() if "signature:" in ln]
+            n_ = sum(1 for ln in out.splitlines() if ln.startswith("VIOLATION"))
+            if r.returncode == 1 and n_ > 0:
+                by.append(chk)
+                sigs += ["%s: %s" % (chk, x) for x in s_[:4]]
+                nv += n_
     finally:
         subprocess.run(["git", "-C", "/repo", "checkout", "--", "."])
-    sigs = [ln.split("signature:")[1].strip() for ln in out.splitlines() if "signature:" in ln]
-    nv = sum(1 for ln in out.splitlines() if ln.startswith("VIOLATION"))
-    res[mid] = {"applies": True, "detected": r.returncode == 1 and nv > 0, "exit": r.returncode, "violations": nv, "signatures": sigs[:6]}
+    res[mid] = {"applies": True, "detected": bool(by), "detected_by": by, "violations": nv, "signatures": sigs[:6]}
     print(mid, "detected" if res[mid]["detected"] else "MISSED", nv, sigs[:2], flush=True)
     mp = os.path.join(V, "seeded", mid, "meta.json")
     try:
         m = json.load(open(mp))
     except Exception:
         m = {}
-    m["detected_by"] = [prop] if res[mid]["detected"] else []
+    m["detected_by"] = by
     m["detected_signatures"] = sigs[:6]
     json.dump(m, open(mp, "w"), indent=1)
 old = {}
